@@ -46,7 +46,7 @@ F0 = Fraction(0)
 
 
 class Frame:
-    __slots__ = ("fid", "fi", "parent", "returns", "module", "node", "label", "globals_", "nonlocals_", "cls")
+    __slots__ = ("fid", "fi", "parent", "returns", "module", "node", "label", "globals_", "nonlocals_", "cls", "gen_acc")
 
     def __init__(self, fid, fi, parent, module, node, label, cls=None):
         self.fid = fid
@@ -59,6 +59,7 @@ class Frame:
         self.globals_ = None
         self.nonlocals_ = None
         self.cls = cls
+        self.gen_acc = None  # generator functions: the list collecting the yielded values
 
 
 class ExprMixin:
@@ -307,6 +308,36 @@ class ExprMixin:
             tuple((ck, vv) for ck, vv, _ in fixed) if ok else None,
         )
         return self.alloc(state, d, e, "dict")
+
+    def _gen_frame(self):
+        for fr in reversed(self.stack):
+            if getattr(fr, "gen_acc", None) is not None:
+                return fr
+            if fr.node is not None and isinstance(fr.node, (ast.FunctionDef, ast.AsyncFunctionDef)):
+                break
+        return None
+
+    def eval_Yield(self, e, state):
+        fr = self._gen_frame()
+        v = self.eval(e.value, state) if e.value is not None else NoneV()
+        if state.bottom:
+            return Bottom()
+        if fr is None:
+            self.note_undecided("yield outside a modelled generator", e)
+            return Top("yield")
+        self.list_append(state, fr.gen_acc, v, e)
+        return NoneV()
+
+    def eval_YieldFrom(self, e, state):
+        fr = self._gen_frame()
+        v = self.eval(e.value, state)
+        if state.bottom:
+            return Bottom()
+        if fr is None:
+            self.note_undecided("yield from outside a modelled generator", e)
+            return Top("yield")
+        self.bi.list_extend(state, fr.gen_acc, v, e)
+        return NoneV()
 
     def eval_Set(self, e, state):
         items = [self.eval(x, state) for x in e.elts]
